@@ -101,7 +101,15 @@ RULE = (
     "route, negative / fractional chunk sizes, a wrong-length vectorised integrand, the refusing methods) followed by accepted calls; sizes "
     "all different with a 1 or 2 among them and point arrays with N = dimension and N < dimension; library grids with negative weights "
     "(Lebedev 13), Becke-transformed radial grids (points to 1e4, weights over five orders of magnitude) and Gauss-Laguerre in the oracle. "
-    "corr and oracle run as independent guarded parts. non-trivial = at least 2 domains and a chunk "
+    "corr and oracle run as independent guarded parts. Round 5, present in every run: the COMPONENTS are modified between construction and use "
+    "(40 histories in the correspondence and 40 in the oracle, every mode): points / weights of a component rebound through the public "
+    "setters, edited in place through the handed-out array (assignment, scaling by 2 / -0.5 / 0), entries of grid_list replaced (same and "
+    "other sizes); after every step size / enumerated points / enumerated weights / both routes with several chunk sizes in shuffled order, "
+    "on the instance whose components were modified, on a second instance built on a copy of the list, and on one built afterwards; "
+    "reference = model / generated programs / brute-force nested sum over the components as they are NOW (the harness's own record). "
+    "Totals past block boundaries: 1025 = 25 x 41 with chunk sizes 1 (1025 chunks) / 512 / 1024 / 1025 / 1026, 4097 = 17 x 241 with 4 / 1000 / "
+    "2048 / 4096, 20001 = 3 x 59 x 113 in the oracle (thorough: 65537 and 2^19 + 1); descending library grids (MultiExpRTransform, reversed "
+    "rules); grids built on float16 and longdouble arrays. non-trivial = at least 2 domains and a chunk "
     "size >= 1 not dividing the total (point-by-point), or at least 2 domains (vectorised / structure)"
 )
 TRUSTED_BASE = [
@@ -249,8 +257,8 @@ BUILD_SRC = '''
 import numpy as np
 def _arr(values, how, role="points"):
     # the array object a grid is built on.  how: c / strided / readonly / negstride (negative strides) / fortran (column-major 2-D) /
-    # view (a window of a larger caller array whose other entries are 7.25) / int, int32, float32 (that dtype; the values are
-    # representable) / boolw (weights of dtype bool, points float64)
+    # view (a window of a larger caller array whose other entries are 7.25) / int, int32, float32, float16, longdouble (that dtype; the
+    # values are representable) / boolw (weights of dtype bool, points float64)
     a = np.array(values, dtype=float)
     if how == "strided":
         big = np.zeros(tuple(2 * s for s in a.shape)); sl = tuple(slice(None, None, 2) for _ in a.shape)
@@ -264,8 +272,8 @@ def _arr(values, how, role="points"):
         return np.ascontiguousarray(a[::-1])[::-1]
     if how == "fortran":
         return np.asfortranarray(a)
-    if how in ("int", "int32", "float32"):
-        return a.astype({"int": np.int64, "int32": np.int32, "float32": np.float32}[how])
+    if how in ("int", "int32", "float32", "float16", "longdouble"):
+        return a.astype({"int": np.int64, "int32": np.int32, "float32": np.float32, "float16": np.float16, "longdouble": np.longdouble}[how])
     if how == "boolw" and role == "weights":
         return a.astype(bool)
     if how == "readonly":
@@ -412,8 +420,8 @@ def _config(ctx: Ctx, cap: int, nd=None, mode=None, sizes=None, plain=False, **f
         dims = list(force["dims"])
     # what the grids' arrays are (class 14): plain float64, non-contiguous, write-protected, negative strides, column-major, windows of
     # larger caller arrays, or another dtype (then the numbers are representable in it: small integers / multiples of 1/8 / 0 and 1)
-    layout = force.get("layout") or rng.choice(["c"] * 6 + ["strided", "readonly", "negstride", "fortran", "view", "view", "int", "int32", "float32", "boolw"])
-    typed = layout in ("int", "int32", "float32", "boolw")
+    layout = force.get("layout") or rng.choice(["c"] * 6 + ["strided", "readonly", "negstride", "fortran", "view", "view", "int", "int32", "float32", "boolw", "float16", "longdouble"])
+    typed = layout in ("int", "int32", "float32", "boolw", "float16")
     lastarg = force.get("kind") == "lastarg"
     if typed or lastarg:
         plain = True
@@ -436,6 +444,8 @@ def _config(ctx: Ctx, cap: int, nd=None, mode=None, sizes=None, plain=False, **f
             p, w = [[float(rng.randint(-3, 3)) for _ in q] for q in p], [float(rng.randint(-1, 3)) for _ in w]
         elif layout == "float32":
             p, w = [[rng.randint(-12, 12) / 8 for _ in q] for q in p], [rng.randint(-4, 12) / 8 for _ in w]
+        elif layout == "float16":            # products of up to five weights stay exact in half precision
+            p, w = [[rng.randint(-12, 12) / 8 for _ in q] for q in p], [rng.randint(-4, 4) / 8 for _ in w]
         elif layout == "boolw":
             w = [float(rng.random() < 0.7) for _ in w]
         pts.append([q[0] for q in p] if dm == 1 else p)
@@ -491,6 +501,8 @@ def _config(ctx: Ctx, cap: int, nd=None, mode=None, sizes=None, plain=False, **f
         par["kind"], ex["ret"] = "lastarg", "float64"
     if ex.get("ret"):
         par["ret"] = ex["ret"]
+    if layout == "float16" and par["ret"] in ("bool", "float32", "complex64"):
+        par["ret"] = "float64"  # half-precision weights times bool / single-precision values are summed in half / single precision: not combined
     if layout == "boolw" and par["ret"] == "bool":
         par["ret"] = "int"     # bool weights times bool values is Boolean algebra in einsum (weights are documented as float arrays): not combined
     if nd == 1 and par["ret"] == "list":
@@ -552,11 +564,12 @@ def _result_kind(x):
     return "complex" if np.iscomplexobj(x) else "longdouble" if x.dtype == np.longdouble and np.dtype(np.longdouble).itemsize > 8 else "real"
 
 
-def _expected_kind(ret):
-    """complex values give a complex integral, extended-precision values an extended-precision one, every other kind a real one
-    (mixed kinds: complex unless no complex value occurred)"""
-    return {"complex128": ("complex",), "complex64": ("complex",), "pycomplex": ("complex",), "longdouble": ("longdouble",),
-            "mixed": ("complex", "real")}.get(ret, ("real",))
+def _expected_kind(ret, layout=None):
+    """complex values give a complex integral, extended-precision values (or extended-precision weights inside the grids) an
+    extended-precision one, every other kind a real one (mixed kinds: complex unless no complex value occurred)"""
+    kinds = {"complex128": ("complex",), "complex64": ("complex",), "pycomplex": ("complex",), "longdouble": ("longdouble",),
+             "mixed": ("complex", "real")}.get(ret, ("real",))
+    return tuple("longdouble" if k == "real" else k for k in kinds) if layout == "longdouble" else kinds
 
 
 def _chunk_sizes(total):
@@ -592,6 +605,209 @@ def _variants(ctx, cfg):
         extras.append("one-point-domain")
     for e in extras:
         ctx.tagc("variant:" + e)
+
+
+# ---- round 5: the components are modified between construction and use ------------------------------------------------------
+# The harness keeps its own record of what the components are NOW (an abstract heap: list position -> grid object -> points array /
+# weights array -> values) and applies every step to the live objects and to that record alike.  Source text: the replay snippets
+# contain it.
+MUT_SRC = '''
+import numpy as np
+def mut_layout(cfg):
+    # -> (grid object label per list position, {object label: [points array label, weights array label]}, {array label: values})
+    idx = dom_index(cfg)
+    n = 1 if cfg["mode"] == "repeat" else cfg["nd"]
+    pos = [("o", k) for k in range(n)] if cfg["mode"] == "list-shared" else [("o", idx[k]) for k in range(n)]
+    oarr = {o: [("p", 0 if cfg["mode"] == "list-shared" else o[1]), ("w", 0 if cfg["mode"] == "list-shared" else o[1])] for o in pos}
+    val = {}
+    for o in pos:
+        g = 0 if cfg["mode"] == "list-shared" else o[1]
+        val[oarr[o][0]], val[oarr[o][1]] = np.array(cfg["pts"][g], dtype=float), np.array(cfg["wts"][g], dtype=float)
+    return pos, oarr, val
+def mut_states(cfg, steps):
+    # the components after 0, 1, ... steps, for the instance whose list is edited (A) and for a second instance built on a COPY of
+    # the list before any step (B: follows the grids, not the replaced entries): -> [(domains of A, domains of B)], a domain = (points, weights)
+    pos, oarr, val = mut_layout(cfg)
+    pos_b = list(pos)
+    rep = cfg["nd"] if cfg["mode"] == "repeat" else 1
+    def snap(pp):
+        return [(val[oarr[o][0]].copy(), val[oarr[o][1]].copy()) for o in pp] * rep
+    out = [(snap(pos), snap(pos_b))]
+    for n, st in enumerate(steps):
+        kind, k = st[0], st[1]
+        if kind == "set":                       # grid.points = new / grid.weights = new (the public setters)
+            lab = ("s", n)
+            val[lab] = np.array(st[3], dtype=float)
+            oarr[pos[k]][0 if st[2] == "points" else 1] = lab
+        elif kind == "inplace":                 # grid.weights[...] = new values / grid.points *= c: the array object stays
+            val[oarr[pos[k]][0 if st[2] == "points" else 1]] = np.array(st[3], dtype=float)
+        elif kind == "replace":                 # mg.grid_list[k] = another grid
+            o = ("r", n)
+            oarr[o] = [("rp", n), ("rw", n)]
+            val[oarr[o][0]], val[oarr[o][1]] = np.array(st[2], dtype=float), np.array(st[3], dtype=float)
+            pos[k] = o
+        else:
+            raise AssertionError(kind)
+        out.append((snap(pos), snap(pos_b)))
+    return out
+def mut_apply(mg, st, Grid):
+    # one step on the live objects, through public attributes only
+    kind, k = st[0], st[1]
+    g = mg.grid_list[k]
+    if kind == "set":
+        setattr(g, st[2], np.array(st[3], dtype=float))
+    elif kind == "inplace":
+        a = getattr(g, st[2])
+        if st[4] == "assign":
+            a[...] = np.array(st[3], dtype=float)
+        else:
+            a *= st[4]
+    else:
+        mg.grid_list[k] = Grid(np.array(st[2], dtype=float), np.array(st[3], dtype=float))
+def mut_observe(mg, f, cfg, what):
+    # what: "size" / "points" / "weights" / ("vec", None) / ("nonvec", c)
+    if what == "size":
+        return int(mg.size)
+    if what == "points":
+        return [tuple(np.array(x, dtype=float) for x in tp) for tp in mg.points]
+    if what == "weights":
+        return [float(x) for x in mg.weights]
+    return complex(run(mg, f, cfg, what[0], what[1]))
+def mut_reference(doms, f):
+    # brute-force nested sum over the components as they are now -> (size, point tuples, weights, integral, sum of |terms|)
+    import math
+    pts, ws, terms = [], [], []
+    def rec(k, args, w):
+        if k == len(doms):
+            pts.append(tuple(args)); ws.append(w); terms.append(w * complex(np.asarray(f(*args)))); return
+        for i in range(len(doms[k][1])):
+            rec(k + 1, args + [doms[k][0][i]], w * float(doms[k][1][i]))
+    rec(0, [], 1.0)
+    return len(ws), pts, ws, complex(math.fsum(t.real for t in terms), math.fsum(t.imag for t in terms)), math.fsum(abs(t) for t in terms)
+def mut_check(got, what, ref, rtol):
+    # None, or how the observation differs from the reference
+    size, pts, ws, integral, scale = ref
+    if what == "size":
+        return None if got == size else f"size {got}, the product set has {size}"
+    if what == "points":
+        ok = len(got) == len(pts) and all(len(a) == len(b) and all(np.array_equal(x, np.asarray(y, dtype=float)) for x, y in zip(a, b)) for a, b in zip(got, pts))
+        return None if ok else f"the enumerated points ({len(got)}) are not the product set of the grids' current points ({len(pts)}) in nested-loop order"
+    if what == "weights":
+        ok = len(got) == len(ws) and all(abs(a - b) <= 1e-13 * abs(b) for a, b in zip(got, ws))
+        return None if ok else f"the enumerated weights {got[:4]}... are not the products of the grids' current weights {ws[:4]}..."
+    return None if abs(got - integral) <= rtol * scale else f"integrate gives {got!r}, nested product quadrature over the grids as they are now {integral!r}"
+def mut_history(cfg, steps, orders, Grid, MultiDomainGrid, Integrand, rtol=1e-10):
+    # -> list of (state number, instance, observation, what is wrong).  orders[s]: the observations made in state s, in that order;
+    # instance A is the one whose list is edited, B was built from a copy of the list before, C is built from A's list after the last step
+    mg, listed, _ = build(cfg, Grid, MultiDomainGrid)
+    mg_b = MultiDomainGrid(list(listed), num_domains=cfg["nd"] if cfg["mode"] == "repeat" else None)
+    f = Integrand(**cfg["par"])
+    states, bad = mut_states(cfg, steps), []
+    for s in range(len(states)):
+        if s:
+            mut_apply(mg, steps[s - 1], Grid)
+        refs = {"A": mut_reference(states[s][0], f), "B": mut_reference(states[s][1], f)}
+        insts = {"A": mg, "B": mg_b}
+        if s == len(states) - 1:
+            insts["C"], refs["C"] = MultiDomainGrid(mg.grid_list, num_domains=cfg["nd"] if cfg["mode"] == "repeat" else None), refs["A"]
+        for who, what in orders[s]:
+            what = tuple(what) if isinstance(what, (list, tuple)) else what
+            try:
+                msg = mut_check(mut_observe(insts[who], f, cfg, what), what, refs[who], rtol)
+            except Exception as e:
+                msg = f"raised {type(e).__name__}: {e}"
+            if msg:
+                bad.append((s, who, what, msg))
+    return bad
+'''
+exec(MUT_SRC, _ns)
+mut_states, mut_history, mut_reference = _ns["mut_states"], _ns["mut_history"], _ns["mut_reference"]
+
+MUT_SNIPPET = """import warnings; warnings.filterwarnings('ignore')
+import numpy as np
+from grid.basegrid import Grid
+from grid.ngrid import MultiDomainGrid
+{integrand_src}
+{build_src}
+{mut_src}
+cfg, steps, orders = {cfg!r}, {steps!r}, {orders!r}
+# steps: ('set', k, 'points'|'weights', values) = grid_list[k].<attr> = array; ('inplace', k, attr, new values, 'assign'|factor) = edit of the
+# array handed out by grid_list[k].<attr>; ('replace', k, points, weights) = mg.grid_list[k] = Grid(points, weights).  After every step:
+# size / points / weights / integrate (both routes, several chunk sizes) against the nested sum over the grids as they are NOW.
+bad = mut_history(cfg, steps, orders, Grid, MultiDomainGrid, Integrand, {rtol})
+assert not bad, 'after steps ' + repr(steps[:bad[0][0]]) + f': instance {{bad[0][1]}}, {{bad[0][2]}}: {{bad[0][3]}}'
+"""
+
+
+def _mut_plan(ctx, cfg):
+    """-> (steps, orders): two to four modifications of the components (every public attribute: points / weights rebound through
+    the setters, edited in place through the handed-out array, list entries replaced) and, per state, the observations in a
+    shuffled order (so every kind of observation comes directly before and directly after every kind of modification)."""
+    rng = ctx.rng
+    pos_n = 1 if cfg["mode"] == "repeat" else cfg["nd"]
+    doms = [(p.copy(), w.copy()) for p, w in mut_states(cfg, [])[0][0]][:pos_n]
+    steps = []
+    for n in range(rng.randint(2, 4)):
+        k = rng.randrange(pos_n)
+        p, w = doms[k]
+        kind = rng.choice(["set", "set", "inplace", "inplace", "replace"])
+        role = rng.choice(["weights", "weights", "points"])
+        old = w if role == "weights" else p
+        if kind == "replace":
+            m = rng.choice([len(w), len(w), rng.randint(1, 4)])
+            newp = np.round(np.array([[rng.uniform(-1.5, 1.5) for _ in range(p.shape[1])] for _ in range(m)]) if p.ndim == 2 else np.array([rng.uniform(-1.5, 1.5) for _ in range(m)]), 3)
+            neww = np.round(np.array([rng.uniform(-0.5, 1.5) for _ in range(m)]), 3)
+            steps.append(("replace", k, newp.tolist(), neww.tolist()))
+        elif kind == "set":
+            new = np.round(old + rng.uniform(0.2, 1.0) * (1 + np.arange(old.size).reshape(old.shape) % 3), 3) if rng.random() < 0.7 else np.round(old[::-1] * 0.5, 3)
+            steps.append(("set", k, role, new.tolist()))
+        else:
+            how = rng.choice(["assign", 2.0, -0.5, 0.0])
+            new = np.round(old * 0.75 + 0.125, 3) if how == "assign" else old * how
+            steps.append(("inplace", k, role, new.tolist(), how))
+        doms = [(pp.copy(), ww.copy()) for pp, ww in mut_states(cfg, steps)[-1][0]][:pos_n]
+    orders = []
+    for s in range(len(steps) + 1):
+        tot = math.prod(len(d[1]) for d in mut_states(cfg, steps)[s][0])
+        obs = [("A", "size"), ("A", "points"), ("A", "weights"), ("A", ("vec", None)), ("A", ("nonvec", 1)), ("A", ("nonvec", max(2, tot - 1))), ("A", ("nonvec", None)),
+               ("B", "weights"), ("B", ("vec", None)), ("B", ("nonvec", rng.choice([1, 2, 3, tot + 1])))]
+        if s == len(steps):
+            obs += [("C", "weights"), ("C", ("vec", None)), ("C", ("nonvec", 2)), ("C", "size")]
+        rng.shuffle(obs)
+        orders.append(obs)
+    return steps, orders
+
+
+def _mut_configs(ctx, n):
+    fixed = [(2, "list"), (3, "list"), (2, "repeat"), (3, "repeat"), (1, "list"), (1, "repeat"), (2, "list-same"), (3, "list-aba"), (2, "list-shared"), (3, "list-shared")]
+    out = []
+    for i in range(n):
+        nd, mode = fixed[i] if i < len(fixed) else (None, None)
+        out.append(_config(ctx, 60, nd, mode, plain=True, layout=ctx.rng.choice(["c", "c", "view", "strided", "negstride", "fortran"]),
+                           ret=ctx.rng.choice(["float64", "float64", "complex128", "0d", "readonly"])))       # (not memo: its buffer is keyed by the first arguments only)
+    return out
+
+
+def _mut_snippet(cfg, steps, orders):
+    return MUT_SNIPPET.format(integrand_src=INTEGRAND_SRC, build_src=BUILD_SRC, mut_src=MUT_SRC, cfg=_pub(cfg), steps=steps, orders=orders, rtol=1e-10)
+
+
+def _mut_key(what):
+    return "ngrid." + (what if isinstance(what, str) else "integrate:" + ("vectorized" if what[0] == "vec" else "chunk")) + ":modified-components"
+
+
+def _oracle_mutation(ctx, cfg, steps=None, orders=None):
+    """The property after the components were modified: every observation against the brute-force nested sum over the components as
+    they are now (the harness's own record)."""
+    bg, ng = importlib.import_module("grid.basegrid"), importlib.import_module("grid.ngrid")
+    if steps is None:
+        steps, orders = _mut_plan(ctx, cfg)
+    bad = mut_history(cfg, steps, orders, bg.Grid, ng.MultiDomainGrid, Integrand)
+    ctx.tagc("oracle:modified-components", len(steps))
+    who_txt = {"A": "the instance whose grids were modified", "B": "a second instance on a copy of the list", "C": "an instance built afterwards from the same list"}
+    for s, who, what, msg in bad[:2]:
+        ctx.fail("oracle", _mut_key(what), f"after the steps {steps[:s]} on the components ({who_txt[who]}), {what}: {msg}",
+                 witness=dict(_pub(cfg), steps=steps, orders=orders), snippet=_mut_snippet(cfg, steps, orders))
 
 
 def _same_struct(a, b):
@@ -670,6 +886,11 @@ def corr(ctx: Ctx):
     cfgs += [_config(ctx, 10 ** 6, nd, mode, sizes=sz, plain=True) for nd, mode, sz in big]
     for c in cfgs[nfixed:]:
         c["_big"] = True
+    # class 21: totals just past a power of two, not a multiple of any 2^k or {1,2,5} 10^k, with chunk sizes that give more than 1024
+    # chunks / leave a remainder of one / are powers of two
+    for sz, chunks in (([25, 41], [1, 512, 1024, 1025, 1026]), ([17, 241], [4, 1000, 2048, 4096])):
+        cfgs.append(_config(ctx, 10 ** 6, 2, "list", sizes=sz, plain=True, layout="c", ret="float64"))
+        cfgs[-1]["_big"] = chunks
     nfixed = len(cfgs)
     cfgs += [_config(ctx, cap if i % 5 else 60) for i in range(max(0, ncfg - len(cfgs)))]
     lines, meta = [], []
@@ -694,7 +915,7 @@ def corr(ctx: Ctx):
         cs = _chunk_sizes(cfg["total"])
         if cfg.get("_big"):
             ops = ops[1:]
-            cs = [5999, 6000, 6001, cfg["total"] - 6000]
+            cs = [5999, 6000, 6001, cfg["total"] - 6000] if cfg["_big"] is True else list(cfg["_big"])
         elif cfg["total"] > 80:
             keep = ctx.rng.sample(cs, 3)
             nd_ = [c for c in cs if cfg["total"] % c and c < cfg["total"]]
@@ -796,9 +1017,9 @@ def corr(ctx: Ctx):
                         return "ok", complex(mg.integrate(lambda *xs: np.asarray(f(*xs)).reshape(-1, 1)))
                     res = run(mg, f, cfg, kind, c)
                     # the kind of the result follows the kind of the values (c = 0 sums nothing: outside the property)
-                    if c != 0 and _result_kind(res) not in _expected_kind(ret):
+                    if c != 0 and _result_kind(res) not in _expected_kind(ret, cfg.get("layout")):
                         ctx.fail("corr", f"ngrid.integrate:{kind}:result-kind", f"{kind} c={c}: integrand values of kind {ret} give a result of kind "
-                                 f"{_result_kind(res)} ({type(res).__name__} {res!r}), expected {' or '.join(_expected_kind(ret))}", witness=wit)
+                                 f"{_result_kind(res)} ({type(res).__name__} {res!r}), expected {' or '.join(_expected_kind(ret, cfg.get("layout")))}", witness=wit)
                     return "ok", complex(res)
                 except ValueError:
                     return "value-error", None
@@ -854,9 +1075,100 @@ def corr(ctx: Ctx):
 
     parts.run("ngrid.histories", lambda: _histories(ctx, cfgs, model_ans, nfixed))
     parts.run("ngrid.refusals", lambda: _refusals(ctx, cfgs, nfixed))
+    parts.run("ngrid.modified-components", lambda: _mut_corr(ctx))
     parts.run("ngrid._chunked_iterator", lambda: _corr_chunks(ctx, ng))
     parts.run("ngrid.__init__", lambda: _corr_constructor(ctx, ng, bg))
     parts.finish()
+
+
+def _mut_corr(ctx):
+    """Correspondence after the components were modified (round 5): the same steps on the live objects; after every step size /
+    enumerated points / enumerated weights / both routes with several chunk sizes, in shuffled order, against the hand model and
+    the generated programs evaluated on the components as they are now."""
+    bg, ng = importlib.import_module("grid.basegrid"), importlib.import_module("grid.ngrid")
+    apply_, observe = _ns["mut_apply"], _ns["mut_observe"]
+    plans, lines, meta = [], [], []
+    for pi, cfg in enumerate(_mut_configs(ctx, ctx.n(40, 400))):
+        steps, orders = _mut_plan(ctx, cfg)
+        f = Integrand(**cfg["par"])
+        states = mut_states(cfg, steps)
+        plans.append((cfg, steps, orders, states))
+        for s, (doms, _) in enumerate(states):
+            spec = (f"repeat {cfg['nd']} 1 {fvec(list(doms[0][1]))}" if cfg["mode"] == "repeat"
+                    else f"list {len(doms)} {len(doms)} " + " ".join(fvec(list(d[1])) for d in doms))
+            tab = [complex(np.asarray(f(*[d[0][i] for d, i in zip(doms, idx)]))) for idx in np.ndindex(*[len(d[1]) for d in doms])]
+            parts = [("re", fvec([z.real for z in tab]))] + ([("im", fvec([z.imag for z in tab]))] if cfg["par"]["ret"] in COMPLEX_RET else [])
+            for who, what in orders[s]:
+                if who != "A" or what in ("points", "weights"):
+                    continue
+                for part, tabtext in (parts if what != "size" else [("re", "")]):
+                    text = "struct " + spec if what == "size" else (f"vec {spec} {tabtext}" if what[0] == "vec" else f"nonvec {6000 if what[1] is None else what[1]} {spec} {tabtext}")
+                    for prog in ("C18.", "C18.gen-"):
+                        lines.append(prog + text)
+                        meta.append((pi, s, what, part, prog))
+    answers = {}
+    for m_, a in zip(meta, driver_batch(lines)):
+        answers[m_] = a
+    for pi, (cfg, steps, orders, states) in enumerate(plans):
+        pub = dict(_pub(cfg), steps=steps, orders=orders)
+        try:
+            mg = build(cfg, bg.Grid, ng.MultiDomainGrid)[0]
+        except Exception as e:
+            ctx.fail("corr", "ngrid.__init__:setup", f"building the grids raised {type(e).__name__}: {e}", witness=pub)
+            continue
+        f = Integrand(**cfg["par"])
+        for s, (doms, _) in enumerate(states):
+            if s:
+                try:
+                    apply_(mg, steps[s - 1], bg.Grid)
+                except Exception as e:
+                    ctx.fail("corr", "ngrid.modified-components:step", f"the step {steps[s - 1]} raised {type(e).__name__}: {e}", witness=pub)
+                    break
+            scale = None
+            for who, what in orders[s]:
+                if who != "A":
+                    continue
+                try:
+                    got = observe(mg, f, cfg, what)
+                except Exception as e:
+                    ctx.fail("corr", _mut_key(what), f"after the steps {steps[:s]}: {what} raised {type(e).__name__}: {e}", witness=pub)
+                    continue
+                ctx.count(["modified", pi, s, what], nontrivial=s >= 1 and cfg["nd"] >= 2, tag="modified-components:" + (what if isinstance(what, str) else what[0]) + (":after-" + steps[s - 1][0] if s else ":before"))
+                if what in ("points", "weights", "size"):
+                    for prog in ("C18.", "C18.gen-"):
+                        t = Tokens(answers.get((pi, s, "size", "re", prog), "missing")) if any(w == "size" for wh, w in orders[s] if wh == "A") else None
+                        if t is None or t.tok() != "ok":
+                            continue
+                        msize = t.nat()
+                        r, cc = t.nat(), t.nat()
+                        combos = [[t.nat() for _ in range(cc)] for _ in range(r)]
+                        mw = t.fvec()
+                        bad = None
+                        if what == "size" and got != msize:
+                            bad = f"size {got}, {prog}struct {msize}"
+                        elif what == "weights" and not (len(got) == len(mw) and all(close(x, y, rtol=1e-13) for x, y in zip(got, mw))):
+                            bad = f"enumerated weights {got[:4]}..., {prog}struct {mw[:4]}..."
+                        elif what == "points" and not (len(got) == len(combos) and all(all(np.array_equal(x, np.asarray(d[0][i], dtype=float)) for x, d, i in zip(tp, doms, cb)) for tp, cb in zip(got, combos))):
+                            bad = f"the enumerated points are not the product order of {prog}struct over the grids' current points"
+                        if bad:
+                            ctx.fail("corr", _mut_key(what) + ("" if prog == "C18." else ":generated"), f"after the steps {steps[:s]}: {bad}", witness=pub)
+                    continue
+                if scale is None:
+                    scale = mut_reference(doms, f)[4]
+                for part in ("re", "im"):
+                    for prog in ("C18.", "C18.gen-"):
+                        a = answers.get((pi, s, what, part, prog))
+                        if a is None:
+                            continue
+                        t = Tokens(a)
+                        if t.tok() != "ok":
+                            ctx.fail("corr", _mut_key(what) + ("" if prog == "C18." else ":generated"), f"after the steps {steps[:s]}: {what}: implementation {got!r}, {prog} answers {a}", witness=pub)
+                            continue
+                        mv = t.flt()
+                        if not close(got.real if part == "re" else got.imag, mv, rtol=1e-11, scale=scale):
+                            ctx.fail("corr", _mut_key(what) + ("" if prog == "C18." else ":generated"),
+                                     f"after the steps {steps[:s]}: {what}: implementation {got!r}, its {'real' if part == 're' else 'imaginary'} part by {prog} on the grids as they are now {mv!r}", witness=pub)
+        ctx.traces += 1
 
 
 def _corr_chunks(ctx, ng):
@@ -907,7 +1219,7 @@ def _round4_configs(ctx):
     out += [_config(ctx, 300, 2, "list", plain=True, ret="memo"), _config(ctx, 300, 3, "repeat", plain=True, ret="memo"), _config(ctx, 300, 1, "list", plain=True, ret="memo"),
             _config(ctx, 300, 3, "list", plain=True, ret="readonly"), _config(ctx, 300, 1, "list", plain=True, ret="readonly")]
     # class 14: what the arrays inside the grids are
-    for i, lay in enumerate(("negstride", "fortran", "view", "int", "int32", "float32", "boolw", "readonly", "strided")):
+    for i, lay in enumerate(("negstride", "fortran", "view", "int", "int32", "float32", "boolw", "readonly", "strided", "float16", "longdouble")):
         out.append(_config(ctx, 300, 2 + i % 2, ["list", "repeat", "list-aba"][i % 3] if i % 3 != 2 else "list", layout=lay, dims=None if lay != "fortran" else [3, 2, 3][: 2 + i % 2]))
         out.append(_config(ctx, 300, 1 + i % 3, "list", layout=lay, kind="lastarg" if i % 2 else None))
     # class 15: every way of spelling the constructor and integrate arguments
@@ -1179,6 +1491,13 @@ def lib_grid(spec):
         warnings.simplefilter("ignore")
         if spec[0] == "Lebedev":
             return AngularGrid(degree=spec[1], method="lebedev")
+        if spec[0] == "MultiExp":           # a DESCENDING radial grid with negative weights, as the library's decreasing maps produce it
+            from grid.rtransform import MultiExpRTransform
+            return MultiExpRTransform(1e-3, 1.5).transform_1d_grid(od.GaussLegendre(spec[1]))
+        if spec[0] == "Reversed":           # a rule with its nodes in descending order
+            from grid.basegrid import Grid
+            g = od.GaussLegendre(spec[1])
+            return Grid(g.points[::-1].copy(), g.weights[::-1].copy())
         if spec[0] == "Becke":              # radial grid on (0, inf): points out to 1e2 ... 1e4, weights over five orders of magnitude
             return BeckeRTransform(1e-4, spec[2]).transform_1d_grid(od.GaussChebyshev(spec[1]))
         return getattr(od, spec[0])(spec[1])
@@ -1221,8 +1540,12 @@ def _real_grids(ctx, nd):
     Gauss-Laguerre)."""
     out = []
     for _ in range(nd):
-        k = ctx.rng.randrange(7)
-        if k == 0:
+        k = ctx.rng.randrange(9)
+        if k == 7:
+            out.append(("MultiExp", ctx.rng.randint(3, 8)))
+        elif k == 8:
+            out.append(("Reversed", ctx.rng.randint(2, 6)))
+        elif k == 0:
             out.append(("GaussLegendre", ctx.rng.randint(2, 6)))
         elif k == 1:
             out.append(("Trapezoidal", ctx.rng.randint(2, 6)))
@@ -1271,7 +1594,7 @@ def _oracle_constructor(ctx):
         ctx.fail("oracle", "ngrid.__init__", str(e), witness=str(e), snippet=CTOR_SNIPPET.format())
 
 
-def _oracle_cfg(ctx: Ctx, cfg, chunks=None):
+def _oracle_cfg(ctx: Ctx, cfg, chunks=None, light=False):
     """The property at one configuration: size / enumeration / every route against an explicit nested-loop
     quadrature (recursion over the domains, math.fsum; no itertools, no model)."""
     mg, grids, doms = _build(cfg)
@@ -1297,7 +1620,7 @@ def _oracle_cfg(ctx: Ctx, cfg, chunks=None):
     ret = cfg["par"]["ret"]
 
     def snip(what, chunk=0, seq=()):
-        return SNIPPET.format(integrand_src=INTEGRAND_SRC, build_src=BUILD_SRC, cfg=pub, what=what, chunk=chunk, seq=seq, kinds=_expected_kind(cfg["par"]["ret"]), rtol=_rtol(cfg, 1e-10))
+        return SNIPPET.format(integrand_src=INTEGRAND_SRC, build_src=BUILD_SRC, cfg=pub, what=what, chunk=chunk, seq=seq, kinds=_expected_kind(cfg["par"]["ret"], cfg.get("layout")), rtol=_rtol(cfg, 1e-10))
 
     # size / enumerations
     ipts, iw = list(mg.points), [float(x) for x in mg.weights]
@@ -1327,9 +1650,9 @@ def _oracle_cfg(ctx: Ctx, cfg, chunks=None):
                 if bad:
                     ctx.fail("oracle", "ngrid.integrate:grid-modified", f"after the calls {calls} of integrate (integrand {cfg['par']['kind']}, values handed back as {ret}): {bad}",
                              witness=dict(pub, history=list(calls)), snippet=snip("history", seq=list(calls)))
-            if _result_kind(res) not in _expected_kind(ret):
+            if _result_kind(res) not in _expected_kind(ret, cfg.get("layout")):
                 ctx.fail("oracle", "ngrid.integrate:result-kind", f"{what}" + (f" with chunk size {chunk}" if chunk is not None else "") + f": integrand values of kind {ret} give a result of kind "
-                         f"{_result_kind(res)} ({type(res).__name__} {res!r}), expected {' or '.join(_expected_kind(ret))}; nested product quadrature in complex arithmetic {ref!r}",
+                         f"{_result_kind(res)} ({type(res).__name__} {res!r}), expected {' or '.join(_expected_kind(ret, cfg.get("layout")))}; nested product quadrature in complex arithmetic {ref!r}",
                          witness=dict(pub, chunk=chunk, history=list(calls)), snippet=sn)
             got = complex(res)
         except Exception as e:
@@ -1360,6 +1683,8 @@ def _oracle_cfg(ctx: Ctx, cfg, chunks=None):
     # in an exception (the integrand failing half-way in either route, a negative chunk size, a vectorised integrand of the
     # wrong length, the two refusing methods).  Every accepted call gives the product quadrature; after every call and every
     # exception the caller's list, the grids and their arrays are as built.
+    if light:                 # the large totals: the routes and chunk sizes above only
+        return
     cs = [c for c in chunks if c is not None and c >= 1] or [1]
     c1 = ([c for c in cs if 1 < c < tot and tot % c] or [c for c in cs if c < tot] or cs)[-1]       # preferably one that does not divide the total
     seq = [("nonvec", c1), ("moments", None), ("raise-nonvec", (c1, max(1, tot // 2))), ("vec", None), ("raise-vec", 1), ("nonvec", cs[0]), ("badchunk", -1),
@@ -1420,10 +1745,10 @@ def oracle(ctx: Ctx, budget: str):
     ng = importlib.import_module("grid.ngrid")
     parts = _Parts(ctx, "oracle")
 
-    def at(cfg, chunks=None):
-        parts.run("ngrid.integrate", lambda: _oracle_cfg(ctx, cfg, chunks), witness=lambda: _pub(cfg),
+    def at(cfg, chunks=None, light=False):
+        parts.run("ngrid.integrate", lambda: _oracle_cfg(ctx, cfg, chunks, light), witness=lambda: _pub(cfg),
                   snippet=lambda: SNIPPET.format(integrand_src=INTEGRAND_SRC, build_src=BUILD_SRC, cfg=_pub(cfg), what="history", chunk=0,
-                                                 seq=[("vec", None), ("nonvec", 1), ("nonvec", cfg["total"] + 1)], kinds=_expected_kind(cfg["par"]["ret"]), rtol=_rtol(cfg, 1e-10)))
+                                                 seq=[("vec", None), ("nonvec", 1), ("nonvec", cfg["total"] + 1)], kinds=_expected_kind(cfg["par"]["ret"], cfg.get("layout")), rtol=_rtol(cfg, 1e-10)))
 
     n = 25 if budget == "small" else 400
     fixed = [(3, "list"), (4, "list"), (3, "list-same"), (3, "repeat")]
@@ -1435,6 +1760,12 @@ def oracle(ctx: Ctx, budget: str):
     for cfg in _round4_configs(ctx):
         at(cfg)
     parts.run("ngrid.__init__", lambda: _oracle_constructor(ctx))
+    # round 5: the components are modified between construction and use (setters, in-place edits, replaced list entries); reference:
+    # the nested sum over the components as they are now
+    for cfg in _mut_configs(ctx, 40 if budget == "small" else 400):
+        plan = _mut_plan(ctx, cfg)
+        parts.run("ngrid.modified-components", lambda: _oracle_mutation(ctx, cfg, *plan), witness=lambda: dict(_pub(cfg), steps=plan[0], orders=plan[1]),
+                  snippet=lambda: _mut_snippet(cfg, *plan))
     # round 3, present in every run: one-point domains / one object in non-adjacent positions / num_domains = 1 (class 12);
     # integrands and weights that are exactly zero on whole blocks, values and weights of extreme magnitude, translated
     # grids (class 8)
@@ -1459,6 +1790,12 @@ def oracle(ctx: Ctx, budget: str):
     # and with the sizes next to it
     for sizes in ([[17, 353]] if budget == "small" else [[17, 353], [75, 80], [7, 857], [78, 78]]):
         at(_config(ctx, 10 ** 6, 2, "list", sizes=sizes, plain=True), chunks=[None, 5999, 6001])
+    # class 21: totals past block boundaries that are no multiple of a power of two or of {1,2,5} 10^k (20001 = 3 x 59 x 113: the default
+    # chunk size leaves 2001, chunk size 16 gives 1251 chunks; thorough / large budget: 65537 and 2^19 + 1 = 3 x 174763)
+    at(_config(ctx, 10 ** 7, 3, "list", sizes=[3, 59, 113], plain=True, layout="c", ret="float64", dims=[1, 3, 1]), chunks=[16, 4096, None], light=True)
+    if budget != "small" or ctx.thorough:
+        at(_config(ctx, 10 ** 7, 2, "list", sizes=[65537, 1], plain=True, layout="c", ret="float64", dims=[1, 1]), chunks=[None, 65536], light=True)
+        at(_config(ctx, 10 ** 7, 2, "list", sizes=[3, 174763], plain=True, layout="c", ret="float64", dims=[1, 1]), chunks=[None], light=True)
     # a point-by-point integrand that hands back a one-element array / list instead of a number: outside the documented
     # contract ("return a float"), observed and reported as information
     def probe_a1():
@@ -1562,6 +1899,9 @@ def oracle_at(ctx: Ctx, failure):
         return
     cfg = {k: w[k] for k in CFG_KEYS if k in w}
     cfg["total"] = _total(cfg)
+    if w.get("steps") is not None and w.get("orders") is not None:
+        _oracle_mutation(ctx, cfg, [tuple(st) for st in w["steps"]], [[(who, tuple(what) if isinstance(what, list) else what) for who, what in o] for o in w["orders"]])
+        return
     chunks = None
     if isinstance(w.get("chunk"), int) and w["chunk"] >= 1:
         chunks = sorted({w["chunk"], 1, cfg["total"] + 1})
